@@ -5,4 +5,5 @@ CONSTANTS
   NProc = 2
   AllowWrite = FALSE
   AllowAlias = TRUE
+  AllowPool = FALSE
   MaxCalls = 2
